@@ -436,6 +436,11 @@ def rule_comment(check):
         neg = body.get("k") == "Unary" and body.get("op") == "Not" and hir.is_call(hir.peel(body["x"])) and has_prefix_test(r, body["x"])
         none = body.get("k") == "MethodCall" and body.get("method") == "is_none" and has_prefix_test(r, body["recv"])
         ok = neg or none
+        # ... comment by comment: retain on the list of comments of a position, not on the map of
+        # positions (dropping an entry drops every comment that shares the position)
+        rty = hir.peel(hir.call_args(n)[0]).get("ty") or ""
+        per_comment = ("Vec<" in rty or "[" in rty) and "Comment" in rty and not any(w in rty.split("Vec<")[0] for w in ("DashMap", "HashMap", "BTreeMap")) and len(cl.get("params", [])) == 1
+        check.expect(per_comment, R, R + "/retain-per-comment", hir.loc(n), "single comments are removed from the list of their position", "the removal drops whole entries of the comment map (%s): every other comment attached to the position of the sourceMappingURL comment disappears from the output" % re.sub(r"[a-z_]+::", "", rty)[:80])
     check.expect(ok, R, R + "/retain-others", hir.loc(r.rec), "retain(|c| !is_source_map_comment(c)): other comments stay", "remove_source_map_comments does not keep exactly the other comments")
 
 
